@@ -6,6 +6,7 @@ failing calls, Dynamo resets and first-call interruptions injected, is checked a
 operation:
   I1 original untouched   I2 no shared storage   I3 repeatability   I4 order independence
   I5 agrees with the hand-written twin, each transform applied once, unit scaling first
+  I7 a derived module carries the state of the module it was derived from (not an ancestor's)
   I6 recovery after a fault (global patch restored, wrapper restored, next call correct)
 """
 
@@ -33,7 +34,7 @@ ASSUMPTIONS = [
     "TorchDynamo/AOT/Inductor are opaque real components: the simulator controls the operations issued to them, resets them and injects exceptions around them, not their internal scheduling",
     "chains follow the documented constraints: unit_scale at most once, one format simulation at most, track_scales/compile last; unit_scale is not applied to the member that is already built from unit-scaled layers",
     "exceptions are injected at first-visit line events only (an exception at the re-visit of a `with` header would pre-empt __exit__, which only an asynchronous signal can do)",
-    "chains ending in compile (Inductor) or track_scales (whose wrappers are value-preserving only to float rounding: recorded finding D13 of property C18) are compared with 2e-5 relative tolerance, all others bitwise",
+    "chains ending in compile (Inductor) or track_scales (whose wrappers are value-preserving only to float rounding: recorded finding D13 of property C18) are compared with 2e-5 relative tolerance, or, for programs that amplify rounding noise themselves, against 8x the measured effect of one-ulp perturbations of every intermediate of the hand-written twin; all other chains bitwise",
     "search phases keep at most 8 compiled entries per code object between Dynamo resets (more is the recorded finding D16, probed deterministically in phase 'known')",
     "seeded search: a clean batch is evidence, not proof",
 ]
@@ -112,7 +113,7 @@ def generate(seed: int, tier: str, phase: str) -> Dict[str, Any]:
     ops: List[Dict[str, Any]] = []
     n = r.choice([3, 4, 5, 6, 8, 10, 12])
     kinds = ["derive", "derive", "derive", "call", "call", "call", "call", "call_original", "sync",
-             "drop", "fleet", "toggle_mode"]
+             "drop", "fleet", "toggle_mode", "perturb"]
     if phase == "faults":
         kinds += ["reset", "bad_call", "interrupt", "interrupt", "bad_call"]
     # swarm: random subset of kinds per run, always derive + call
@@ -124,6 +125,13 @@ def generate(seed: int, tier: str, phase: str) -> Dict[str, Any]:
         ops += [{"op": "derive", "src": 0, "T": {"T": "unit_scale"}}, {"op": "derive", "src": 1, "T": qt},
                 {"op": "derive", "src": 0, "T": copy.deepcopy(qt)}, {"op": "derive", "src": 3, "T": {"T": "unit_scale"}},
                 {"op": "call", "j": r.choice([1, 3]), "k": r.randrange(3), "bwd": True, "gseed": r.randrange(4)}]
+    elif r.random() < 0.3:
+        # a derived member is trained / re-loaded, then transformed again: the second-level
+        # module must start from the member's state (I7), not from the original's
+        ops += [{"op": "derive", "src": 0, "T": _gen_T(r, False)},
+                {"op": "perturb", "j": 0, "pseed": r.randrange(1 << 20)},
+                {"op": "derive", "src": 1, "T": _gen_T(r, allow_compile)},
+                {"op": "call", "j": 1, "k": r.randrange(3), "bwd": True, "gseed": r.randrange(4)}]
     else:
         ops.append({"op": "derive", "src": 0, "T": _gen_T(r, allow_compile)})
     for _ in range(n):
@@ -140,6 +148,8 @@ def generate(seed: int, tier: str, phase: str) -> Dict[str, Any]:
             op.update(dst=r.randrange(16), src=r.randrange(16))
         elif k == "drop":
             op.update(j=r.randrange(16))
+        elif k == "perturb":
+            op.update(j=r.randrange(16), pseed=r.randrange(1 << 20))
         elif k == "toggle_mode":
             op.update(j=r.randrange(16), train=r.random() < 0.5)
         elif k == "fleet":
@@ -170,6 +180,7 @@ class Mod:
         self.chain = chain
         self.first: Dict[Tuple[int, bool, int], str] = {}
         self.called = False
+        self.perturbed = False
 
 
 def chain_legal(chain: List[Dict[str, Any]], T: Dict[str, Any], member: str) -> bool:
@@ -184,6 +195,34 @@ def chain_legal(chain: List[Dict[str, Any]], T: Dict[str, Any], member: str) -> 
     if n == "compile" and any(x in ("simulate_fp8", "simulate_format") for x in names):
         return False  # documented: compile does not support the format-simulation ops
     return True
+
+
+def expected_state(base: Any, new: Any, T: Dict[str, Any]) -> Dict[str, Any]:
+    """State a module derived from `base` by transform T must carry: base's own state (the state
+    of the module that was passed in, not of any ancestor), except that unit_scale() divides
+    Linear/Embedding weights by their std and zeroes their biases (tied tensors visited per
+    owning module, as documented)."""
+    import torch
+    from torch import nn
+
+    sd = {k: v.detach().clone() for k, v in base.state_dict().items()}
+    if T["T"] != "unit_scale":
+        return sd
+    keys_of: Dict[int, List[str]] = {}
+    for k, p in new.named_parameters(remove_duplicate=False):
+        keys_of.setdefault(id(p), []).append(k)
+    with torch.no_grad():
+        for _, mod in new.named_modules():
+            if isinstance(mod, (nn.Linear, nn.Embedding)):
+                for attr, f in (("weight", lambda v: v / v.std()), ("bias", lambda v: v - v)):
+                    p = getattr(mod, attr, None)
+                    if isinstance(p, torch.Tensor) and id(p) in keys_of:
+                        ks = [k for k in keys_of[id(p)] if k in sd]
+                        if ks:
+                            val = f(sd[ks[0]])
+                            for k in ks:
+                                sd[k] = val
+    return sd
 
 
 def chain_key(chain: List[Dict[str, Any]]) -> str:
@@ -329,6 +368,15 @@ def execute(plan: Dict[str, Any]) -> Dict[str, Any]:
         if d and tol is not None and not tw.diff({"outs": got["outs"]}, {"outs": want["outs"]}, tol) and \
                 tw.grads_close_globally(got, want, tol):
             d = None  # a gradient that is pure cancellation noise is compared on the scale of all gradients
+        if d and tol is not None and not fell_back:
+            # a program that itself amplifies rounding noise (cancellation before a normalisation,
+            # say): the difference is judged against the measured effect of one-ulp perturbations
+            # of every intermediate of the twin
+            mk = lambda j: programs.Reference(spec, us=mode["us"], q=mode["q"], replace=mode["replace"], jitter=j)  # noqa: E731
+            if tw.within_rounding_band(got, want, mk, m.mod, inputs[k], gseed, bwd, no_grad=nograd):
+                probe("judged_by_rounding_band")
+                d = None
+            prf.take_log()
         if d:
             raise Violation("I5_applied_once_in_order",
                             "untransformed_after_recompile_limit" if fell_back else "twin_mismatch",
@@ -403,7 +451,19 @@ def execute(plan: Dict[str, Any]) -> Dict[str, Any]:
                 d = tw.state_equal(base, before)
                 if d:
                     raise Violation("I1_original_untouched", "source_of_transform_changed", f"{d} {where}")
+                # I7: the new module carries the state of the module it was derived from
+                try:
+                    exp_sd = expected_state(base, new, op["T"])
+                except Exception as e:  # harness problem, not the library's
+                    raise RuntimeError(f"expected_state failed: {type(e).__name__}: {e}")
+                d = tw.state_equal(new, exp_sd)
+                if d:
+                    raise Violation("I7_state_carried", "derived_module_state_differs_from_source",
+                                    f"{op['T']} on {chain_key(chain)}: {d} {where}")
+                if src and src.perturbed:
+                    probe("derive_from_perturbed_member")
                 mods.append(Mod(new, chain + [op["T"]]))
+                mods[-1].perturbed = bool(src and src.perturbed)
                 tag = "derive:" + chain_key(chain + [op["T"]])
                 if src:
                     probe("nested_derive")
@@ -452,6 +512,20 @@ def execute(plan: Dict[str, Any]) -> Dict[str, Any]:
                 a.mod.load_state_dict(b.mod.state_dict())
                 a.first.clear()
                 tag = "sync"
+            elif k == "perturb":
+                # the member's own state moves away from the original's (training, a loaded
+                # checkpoint): whatever is derived from it later must start from THIS state
+                m = pick(op["j"])
+                if m is None:
+                    continue
+                g = torch.Generator().manual_seed(op["pseed"])
+                new_sd = {}
+                for kk, v in m.mod.state_dict().items():
+                    new_sd[kk] = v + 0.05 * torch.randn(v.shape, generator=g).to(v.dtype) if v.is_floating_point() else v
+                m.mod.load_state_dict(new_sd)
+                m.first.clear()
+                m.perturbed = True
+                probe("perturbed_members")
             elif k == "drop":
                 m = pick(op["j"])
                 if m is None or len(mods) < 2:
@@ -577,7 +651,7 @@ def simplify(plan: Dict[str, Any]) -> Iterable[Dict[str, Any]]:
         c["member"] = "mlp"
         yield c
     for i, op in enumerate(plan["ops"]):
-        if op["op"] in ("bad_call", "interrupt", "reset", "sync", "drop"):
+        if op["op"] in ("bad_call", "interrupt", "reset", "sync", "drop", "perturb"):
             c = copy.deepcopy(plan)
             c["ops"][i] = {"op": "call", "j": op.get("j", 0), "k": 0, "bwd": True, "gseed": 0}
             yield c
